@@ -874,6 +874,10 @@ func runSession(r *rec, g *rng, s *session, u *universe, steps int, mon *os.File
 				os.Remove(p)
 				if g.chance(60) {
 					os.WriteFile(p, []byte("new"), 0o644) // same name, new inode
+				} else if g.chance(50) {
+					// a re-Add that fails (ENOENT) while the path may still be listed (hard link / stale entry)
+					s.opAdd(r, u.spell(g, f), 0x1f, false)
+					r.notes["fs:unlink+failed-readd"]++
 				}
 				r.notes["fs:unlink"]++
 			}
@@ -1123,6 +1127,26 @@ var scripts = []func(r *rec, s *session, u *universe){
 		os.Remove(filepath.Join(u.root, "f1"))
 		s.rawRecs(r, rawRec{wd: d, mask: inDelete, name: kernelPad("x")}, rawRec{wd: x, mask: inDeleteSelf}, rawRec{wd: x, mask: inIgnored},
 			rawRec{wd: f, mask: inDeleteSelf}, rawRec{wd: f, mask: inIgnored})
+	},
+	// a FAILED re-Add of a listed path: the file is unlinked while a hard link (or an open descriptor) keeps the
+	// inode and with it the kernel mark alive; Add(p) answers ENOENT and must leave the watch set (C04) and the
+	// agreement of tables and kernel marks (C12) exactly as they were; Remove(p) still finds the watch
+	func(r *rec, s *session, u *universe) {
+		f := filepath.Join(u.root, "f0")
+		s.opAdd(r, f, 0x1f, false)
+		check(os.Link(f, f+".keep"))
+		check(os.Remove(f))
+		s.opAdd(r, f, 0x1f, false)
+		s.opWatchList(r)
+		s.opAdd(r, filepath.Join(u.root, "f0", "below-a-file"), 0x1f, false) // ENOTDIR while f0 does not exist: ENOENT
+		s.opRemove(r, f)
+		s.opWatchList(r)
+		// the same with a directory whose name is taken by a file afterwards (ENOTDIR for what was listed below it)
+		d := filepath.Join(u.root, "d1")
+		s.opAdd(r, filepath.Join(d, "sub"), 0x1f, false)
+		s.opAdd(r, d, 0x1f, false)
+		s.opAdd(r, filepath.Join(d, "nope", "x"), 0x1f, false)
+		s.opWatchList(r)
 	},
 	// stale read buffer: two or three reads with the same layout (same watches, same offsets, same padded
 	// name lengths) and different names, with no barrier read in between. Anything that remembers names
